@@ -106,9 +106,14 @@ pub fn normalise(v: &Value) -> Value {
 
 /// First path at which two JSON values differ (for readable failure reports).
 pub fn first_diff(a: &Value, b: &Value, path: &str) -> Option<String> {
+    if a == b {
+        return None;
+    }
     match (a, b) {
         (Value::Object(x), Value::Object(y)) => {
-            for k in x.keys().chain(y.keys()) {
+            // every key once (visiting the keys of both sides one after the other doubled the work at every level of
+            // nesting: deep type expressions took minutes)
+            for k in x.keys().chain(y.keys().filter(|k| !x.contains_key(*k))) {
                 match (x.get(k), y.get(k)) {
                     (Some(p), Some(q)) => {
                         if let Some(d) = first_diff(p, q, &format!("{path}.{k}")) {
